@@ -40,6 +40,15 @@ func ParseInst(layout string, s *smt.Term) *smt.Term {
 	return smt.UF("tparse_ns_"+layoutID(layout), []string{"String"}, &smt.Term{K: smt.KBV, W: 64}, s)
 }
 
+// ParseZ: the parsed value is held in UTC (the string spells its zone as "Z" / +00:00) rather than with a zone offset.
+func ParseZ(layout string, s *smt.Term) *smt.Term {
+	if s.Const {
+		t, err := time.Parse(layout, s.Str)
+		return smt.Bool(err == nil && t.Location() == time.UTC)
+	}
+	return smt.UF("tparse_z_"+layoutID(layout), []string{"String"}, &smt.Term{K: smt.KBool}, s)
+}
+
 func (in *Interp) newErrorValue(msg *smt.Term, tag string) Value {
 	// *errors.errorString{s: msg}
 	ep := in.P.Prog.ImportedPackage("errors")
@@ -109,6 +118,7 @@ func init() {
 		ir.Extra["ok"] = ok
 		ir.Extra["ns"] = ParseInst("2006-01-02T15:04:05Z07:00", s)
 		ir.Extra["empty"] = smt.Eq(s, smt.StrLit(""))
+		ir.Extra["z"] = ParseZ("2006-01-02T15:04:05Z07:00", s)
 		in.Assume(smt.Implies(ok, smt.Not(smt.Eq(s, smt.StrLit("")))))
 		return s
 	}
@@ -155,7 +165,7 @@ func init() {
 		in.event("time.Parse layout=%q", lt.Str)
 		ok := ParseOK(lt.Str, s)
 		if in.Branch(ok) {
-			return Tuple{&TimeV{Inst: ParseInst(lt.Str, s), UTC: smt.False, Clock: "parsed"}, nilError()}
+			return Tuple{&TimeV{Inst: ParseInst(lt.Str, s), UTC: ParseZ(lt.Str, s), Clock: "parsed"}, nilError()}
 		}
 		return Tuple{zeroValue(fn.Signature.Results().At(0).Type()), in.opaqueError("timeparse")}
 	}
